@@ -19,7 +19,7 @@ Record obs := mkObs {
 
 Definition err_code (e : err) : Z :=
   match e with
-  | EUnknownSub | EOutHigh => 1
+  | EOutHigh => 1
   | EIndex => 2
   | EVirtNone | EBusy | ENotAllocated => 3
   | EAlready => 3
